@@ -4,8 +4,19 @@
   bhmac <n> <key hex> <msg hex>                  HMAC(Blake(n),key)(msg)          (Model.Hmac over Model.Blake, RFC 2104 over Spec.Blake)
   bhmac.s <n> <key hex> <msg hex>                the same over the module singleton blake<n>
   bhmacseq <n> <msg hex> <key1 hex> <key2 hex> … one HMAC object: setkey(k_i) then call(msg), for each key
+  bhmach <n|@n> | <step> | <step> …              ONE Blake(n) object (or the module singleton) with a HISTORY, handed to HMAC:
+                                                 steps of `blakeseqs` on it (new | init [salt=<n>] | upd <hex> [L] | fin <hex> [L] |
+                                                 call <hex> [s=<n>] [bitlen=<L>]) and
+                                                   mac <key hex> <msg hex>     o = HMAC(h,key); o(msg)
+                                                   again <msg hex>             o(msg) on the HMAC object of the last `mac`
+                                                 printed per step as in `blakeseqs`; the MAC for mac / again.
+                                                 model = Model.HmacObj over the Blake object threaded through the line;
+                                                 spec = RFC 2104 over Spec.Blake with zero salt for mac / again (the standard knows
+                                                 nothing of the object's earlier life), the `blakeseqs` spec for the other steps
 -/
 import Driver.Wire
+import Driver.BlakeD
+import Model.HmacObj
 import Model.Blake
 import Model.Hmac
 import Spec.Blake
@@ -35,8 +46,62 @@ def specHmac (n : Nat) (k m : List Nat) : String :=
   | none => "ERR"
   | some V => fmtBytes (Spec.rfc2104 (specFn V) (V.block / 8) k m)
 
+/-! ### `bhmach`: the hash object has a history -/
+
+inductive HStep
+  | hash (op : BlakeD.BOp)
+  | mac (k m : List Nat)
+  | again (m : List Nat)
+
+def parseHStep? : List String → Option HStep
+  | ["mac", k, m] => do let k ← parseBytes? k; let m ← parseBytes? m; pure (.mac k m)
+  | ["again", m] => do let m ← parseBytes? m; pure (.again m)
+  | toks => (BlakeD.parseBOp? toks).map .hash
+
+/-- `self.h(x)` on the Blake object of the line: `initstate(salt=0)` + `update(x,padding=True)`, whatever slot it finds -/
+def hashS (c : Blake.Cfg) : HmacObj.HashS BlakeD.Slot := fun _ x =>
+  let (s', r) := Blake.update c (Blake.initstate c 0) x none true
+  (.s1 s', r)
+
+def histModel (cls : BlakeD.Cls) (c : Blake.Cfg) : BlakeD.Slot → Option Hmac → List HStep → List String → List String
+  | _, _, [], acc => acc.reverse
+  | o, hm, .hash op :: rest, acc =>
+    let (o', r) := BlakeD.stepSlot [cls] 0 o op
+    histModel cls c o' hm rest (r :: acc)
+  | o, hm, .mac k m :: rest, acc =>
+    match HmacObj.hmac (hashS c) c.blocksize o k m with
+    | (o', some hm', r) => histModel cls c o' (some hm') rest (fmtE fmtBytes r :: acc)
+    | (o', none, r) => histModel cls c o' hm rest (fmtE fmtBytes r :: acc)
+  | o, hm, .again m :: rest, acc =>
+    match hm with
+    | none => histModel cls c o hm rest ("ERR" :: acc)
+    | some h =>
+      let (o', r) := HmacObj.call h (hashS c) o m
+      histModel cls c o' hm rest (fmtE fmtBytes r :: acc)
+
+def histSpec (cls : BlakeD.Cls) (n : Nat) : BlakeD.SSlot → Option (List Nat) → List HStep → List (Option String) → List (Option String)
+  | _, _, [], acc => acc.reverse
+  | o, key, .hash op :: rest, acc =>
+    let (o', r) := BlakeD.specSlot [cls] 0 o op
+    histSpec cls n o' key rest (r :: acc)
+  | _, _, .mac k m :: rest, acc => histSpec cls n .dead (some k) rest (some (specHmac n k m) :: acc)
+  | _, key, .again m :: rest, acc =>
+    histSpec cls n .dead key rest ((match key with | some k => some (specHmac n k m) | none => some "ERR") :: acc)
+
+def histLine (cs : String) (steps : List HStep) : Option (String × String) := do
+  let cls ← BlakeD.parseCls? cs
+  match cls with
+  | .b1 n c =>
+    let model := ";".intercalate (histModel cls c .none none steps [])
+    let sp := histSpec cls n .dead none steps []
+    pure (model, if sp.any Option.isNone then "-" else ";".intercalate (sp.map (·.getD "-")))
+  | _ => none
+
 def handle : Handler := fun op args =>
   match op, args with
+  | "bhmach", cs :: "|" :: rest => do
+      let steps ← (BlakeD.splitBar rest).mapM parseHStep?
+      histLine cs steps
   | "bhmac", [n, k, m] => do
       let n ← parseNat? n; let k ← parseBytes? k; let m ← parseBytes? m
       let model := match Blake.mk? n with
